@@ -4,11 +4,15 @@ package zz
 // string if-then-else, and the decoder of the harness form-post template.
 
 import (
+	"errors"
 	"fmt"
 	"html"
+	"net/http"
 	"net/url"
 	"os"
 	"strings"
+
+	retryablehttp "github.com/hashicorp/go-retryablehttp"
 )
 
 func declFail(raw, what string, got, want any) {
@@ -144,3 +148,27 @@ func FormPost(body string) (action string, params url.Values, ok bool) {
 	}
 	return action, params, true
 }
+
+// ---- a spy HTTP client: there is no network; every fetch is counted and fails.
+
+var fetches int
+
+type spyTransport struct{}
+
+func (spyTransport) RoundTrip(r *http.Request) (*http.Response, error) {
+	fetches++
+	return nil, errors.New("zz: no network in the harness")
+}
+
+// SpyHTTPClient returns a client for Config.HTTPClient whose fetches are counted (FetchCount) and fail.
+// Symbolically the engine's model of (*retryablehttp.Client).Get does the same.
+func SpyHTTPClient() *retryablehttp.Client {
+	c := retryablehttp.NewClient()
+	c.RetryMax = 0
+	c.Logger = nil
+	c.HTTPClient = &http.Client{Transport: spyTransport{}}
+	return c
+}
+
+// FetchCount is the number of HTTP fetches attempted through SpyHTTPClient so far.
+func FetchCount() int { return fetches }
